@@ -51,6 +51,10 @@ def codec_models():
 
 
 # =============================================================================== C06
+def f_cmd(ctx):
+    return ctx.repo.func(f"{PROTO}:ProtocolHandler.command")
+
+
 def explore_command(ctx, v, seq, name, send=None, wait=None, cancel=False, stale=()):
     repo = ctx.repo
     f = repo.func(f"{PROTO}:ProtocolHandler.command")
@@ -143,7 +147,7 @@ def r06_1(ctx):
     ctx.sample({"v8 header for seq 255": "ff0001" + "0000"})
 
 
-@rule("R06.4", ["C06", "C10", "C08", "C07"], "T-PAIR", floor=10)
+@rule("R06.4", ["C06", "C10", "C08", "C07", "C19", "C09"], "T-PAIR", floor=10)
 def r06_4(ctx):
     """The single in-flight slot: send and wait happen inside `async with self._send_semaphore(priority=...)`,
     which is a PriorityDynamicBoundedSemaphore of MAX_COMMAND_CONCURRENCY = 1 and is touched in no other way, so it
@@ -157,6 +161,22 @@ def r06_4(ctx):
     ctx.require(0 < tmo <= 60, "EZSP_CMD_TIMEOUT", f"EZSP_CMD_TIMEOUT = {tmo}", props=P)
     send = Outcomes(OK(None), RAISE("NcpFailure"), RAISE("CancelledError"))
     wait = Outcomes(OK(Sym("reply")), RAISE("TimeoutError"), RAISE("CancelledError"))
+    # what a failing call raises is what its callers act on: the reply timeout must surface as TimeoutError (the watchdog counts it,
+    # send_packet reports it), a link failure as the link's exception, a cancellation as CancelledError - at every sequence number,
+    # the wrap-around included
+    for seq0 in (0, 254, 255):
+        for v0 in (4, 8):
+            _, _, ps = explore_command(ctx, v0, seq0, "nop", send, wait, cancel=True)
+            ctx.paths += len(ps)
+            for p in ps:
+                aw = [e for e in p.events if e.kind == "await"]
+                last = str(aw[-1].extra) if aw else ""
+                if last.startswith("raises ") and aw[-1].what in ("future",) or (last.startswith("raises ") and aw and aw[-1].what.endswith("send_data")):
+                    want = last.split()[1]
+                    got = getattr(p.value, "cls_name", None) if p.terminal == "raise" else None
+                    ctx.require(got == want, f"command:exception:{want}:seq={seq0}",
+                                f"v{v0}, sequence number {seq0}: {aw[-1].what} ends with {want} but the command ends with {p.terminal} {p.value!r}; callers "
+                                f"(watchdog, send_packet) act on {want}", func=f_cmd(ctx), trace=p.trace(30), props=("C06", "C19", "C10"))
     f, px, paths = explore_command(ctx, 8, 7, "nop", send, wait, cancel=True)
     ctx.paths += len(paths)
     ctx.anchor(len(paths) >= 6, "command() outcome paths")
@@ -169,6 +189,12 @@ def r06_4(ctx):
                 bad = f"await {e.what} outside the send semaphore"
             if e.what == "future" and not any(c.endswith("asyncio_timeout") for c in e.ctx):
                 bad = "reply wait is not inside asyncio_timeout"
+            if e.what.endswith("send_data") and any(c.endswith("asyncio_timeout") for c in e.ctx):
+                # the link has its own retry budget (up to ACK_TIMEOUTS transmissions, several seconds each); the command timeout bounds
+                # the wait for the *reply* and starts when the link has taken the frame (C10: command timeout + link timeouts)
+                ctx.violation("command:send-inside-timeout", f"path [{pid}]: the frame is handed to the link inside the reply timeout: a frame that the link "
+                              "gets through on a later retransmission (lossy line during bring-up) fails its command although it was delivered and "
+                              "will be answered", func=f, trace=p.trace(20), props=("C06", "C09", "C10"))
         ent = [e for e in p.events if e.kind == "enter" and e.what == "self._send_semaphore"]
         ext = [e for e in p.events if e.kind == "exit" and e.what == "self._send_semaphore"]
         ok_reply = aw and aw[-1].what == "future" and aw[-1].extra == Sym("reply")
@@ -202,7 +228,7 @@ def r06_4(ctx):
                 d = e.args[0] if e.args else None
                 ok = (isinstance(d, Sym) and repr(want)[1:] in d.tag) or (isinstance(d, (bytes, bytearray)) and bytes(d).startswith(want))
                 ctx.require(ok, "command:header-vs-registration", f"path [{pid}]: the call waits under sequence number {last_reg} but the frame sent is {d!r:.70} "
-                            f"(header must start with {want.hex()})", func=f, trace=p.trace(40))
+                            f"(header must start with {want.hex()})", func=f, trace=p.trace(40), props=("C06", "C10", "C08", "C07"))
     # construction and uses of the semaphore
     for g, nnode, kind in index(repo).writers("_send_semaphore"):
         st = [s for s in ast.walk(g.node) if isinstance(s, ast.Assign) and any(t is nnode for t in s.targets)]
@@ -224,7 +250,7 @@ def r06_4(ctx):
                     func=g, node=nnode, props=P)
     from .ash_link import confined_writers
 
-    confined_writers(ctx, "_seq", {q for q in px.visited}, {"ProtocolHandler.__init__"}, "R06.1/R06.4 (command)")
+    confined_writers(ctx, "_seq", {q for q in px.visited}, {"ProtocolHandler.__init__"}, "R06.1/R06.4 (command)", props=("C06", "C10", "C08", "C07"))
 
 
 KEEPALIVE = ("nop", "readCounters", "readAndClearCounters")
@@ -880,12 +906,13 @@ SAFE_CALLS = {"len", "bool", "bytes", "bytearray", "isinstance", "int", "str", "
               "time.monotonic", "time.time", "time.perf_counter", "binascii.hexlify", "data.hex", "asyncio.get_running_loop"}
 
 
-@rule("R08.1", ["C08", "C02"], "T-ESC", floor=20)
+@rule("R08.1", ["C08", "C02", "C06", "C07"], "T-ESC", floor=20)
 def r08_1(ctx):
     """Nothing escapes EZSP.frame_received: the entry point is evaluated for frames of length 0..8 and 64, with no
     protocol handler installed and with a handler that returns or raises each of the exception classes the decoding path
     can produce (KeyError, ValueError, IndexError, AssertionError, AttributeError, TypeError, a plain Exception): every
-    path must return normally, and a non-empty frame is handed to the installed handler exactly once, unchanged. Calls the evaluation cannot see into (neither logging, nor a total builtin, nor a function of
+    path must return normally, and a frame at least as long as the version's header (3 bytes for version 4, 5 afterwards) is handed to
+    the installed handler exactly once, unchanged (shorter ones may be dropped). Calls the evaluation cannot see into (neither logging, nor a total builtin, nor a function of
     the repository that is evaluated with the rest) must lie inside a try whose handler catches Exception; the handler body
     itself may only log. Gateway.data_received only forwards."""
     from ..esc import enclosing_try, handler_contains_all
@@ -922,12 +949,22 @@ def r08_1(ctx):
                 calls = [e for e in p.events if e.kind == "call" and e.what == "self._protocol"]
                 how = "/".join(str(e.extra)[:24] for e in calls) or "-"
                 pv = proto if proto == "none" else f"v{proto}"
-                ctx.require(p.terminal == "return", f"frame_received:raises:{pv}:len={len(data)}:{how}",
-                            f"frame of {len(data)} bytes, protocol handler {pv} ({how}): the receive entry point ends with {p.terminal} {p.value!r}; "
-                            "whatever arrives, EZSP.frame_received must return", func=f, trace=p.trace())
-                if proto != "none" and len(data) > 0:
-                    ctx.require(len(calls) == 1 and calls[0].args and calls[0].args[0] == data, f"frame_received:dispatch:len={len(data)}",
-                                f"a {len(data)}-byte frame is handed to the protocol handler {len(calls)} times / with other bytes", func=f, trace=p.trace())
+                if p.terminal != "return":
+                    ctx.violation(f"frame_received:raises:{pv}:len={len(data)}:{how}",
+                                  f"frame of {len(data)} bytes, protocol handler {pv} ({how}): the receive entry point ends with {p.terminal} {p.value!r}; "
+                                  "whatever arrives, EZSP.frame_received must return", func=f, trace=p.trace(), props=("C08", "C02"))
+                else:
+                    ctx.ok(1, f"returns:{pv}:{len(data)}")
+                # a complete frame is at least the version's header long (3 bytes in the legacy format, 5 afterwards): it must reach the
+                # handler exactly once and unchanged, or the command it answers never completes / the callback is lost or doubled
+                if proto != "none" and len(data) >= (3 if proto == 4 else 5):
+                    if not (len(calls) == 1 and calls[0].args and calls[0].args[0] == data):
+                        ctx.violation(f"frame_received:dispatch:{pv}:len={len(data)}",
+                                      f"a {len(data)}-byte frame (at least a full {pv} header) is handed to the protocol handler {len(calls)} times / with "
+                                      "other bytes: a response without parameters would never complete its command", func=f, trace=p.trace(),
+                                      props=("C08", "C06", "C07"))
+                    else:
+                        ctx.ok(1, f"dispatch:{pv}:{len(data)}")
 
     def opaque_calls(root):
         for n in ast.walk(root):
